@@ -559,8 +559,20 @@ def drive_family(ctx, name, cells, probes, extra_cfg=None):
     os.makedirs(d, exist_ok=True)
     for tl in glob.glob(os.path.join(SPEC, "*.tla")):
         shutil.copy(tl, d)
-    # logs of bounded size (~60k events), so that every monitor run stays short; as many logs as needed
-    per_log = max(1, 60000 // (2 * t["len"] + 40))
+    # logs of bounded size (~60k events), so that every monitor run stays short; as many logs as needed.  The events
+    # per history depend on the batteries of the property (probes, misuse ...): measured with a pilot of 3 histories.
+    pcfg = dict(CELLS[cells[0]])
+    pcfg.update(comps=dr["comps"], probes=probes, seed=ctx.seed, reuse=True, maxent=dr["maxent"])
+    pcfg.update(dr.get("extra", {}))
+    if extra_cfg:
+        pcfg.update(extra_cfg)
+    pilot = os.path.join(d, "pilot.ndjson")
+    pst = exec_proc(ctx, [ctx.binpath, "-drive", "3", "-len", str(t["len"]), "-out", pilot, "-cfg", json.dumps(pcfg)], "driver", pcfg, "drive:" + name, cells[0])
+    for pth in (pilot, pilot + ".seqs"):
+        if os.path.exists(pth):
+            os.remove(pth)
+    per_hist = max(2 * t["len"] + 40, int(pst["events"] / 3) if pst else 0)
+    per_log = max(1, 60000 // per_hist)
     shards = max(1, min(-(-t["count"] // (per_log * len(cells))), 400))
     shards = max(shards, min(MON_PAR // max(1, len(cells)), t["count"] // max(1, len(cells))) or 1)
     per = max(1, t["count"] // (shards * len(cells)))
